@@ -157,6 +157,17 @@ def check(ctx):
     return rep
 
 
+def _item(v, i):
+    if isinstance(v, SArr):
+        return v.items[i]
+    if isinstance(v, (list, tuple)):
+        return v[i]
+    try:
+        return v.a[i]
+    except Exception:
+        return None
+
+
 def _run(model, fn, rel, args, kwargs=None, hooks=None, selfv=None,
          ci=None):
     hooks = hooks or PHooks()
@@ -418,6 +429,63 @@ def _completion(rep, model):
     except PyRaise as e:
         rep.violation('R2', 'uniform_partition_fromgrid', 'raises %s'
                       % e.name, PART, fn.lineno)
+    # explicit / default limits per axis of a 2-d grid, in every form the
+    # function documents: None, array-like, dict with a non-negative or a
+    # negative axis key
+    fn = ctx.func(PART, 'uniform_partition_fromgrid')
+    c2 = [[Rat.var('c%d' % i) for i in range(3)],
+          [Rat.var('e%d' % i) for i in range(4)]]
+
+    def forms(tag):
+        a, b = Rat.var(tag + '0'), Rat.var(tag + '1')
+        return [('None', None, (None, None)),
+                ('array', SArr([a, b]), (a, b)),
+                ('{0: v}', {0: a}, (a, None)),
+                ('{1: v}', {1: b}, (None, b)),
+                ('{-1: v}', {-1: b}, (None, b)),
+                ('{-2: v}', {-2: a}, (a, None)),
+                ('{0: v, -1: v}', {0: a, -1: b}, (a, b)),
+                ('{-2: v, 1: v}', {-2: a, 1: b}, (a, b))]
+    n2 = 0
+    for (tl, lo_arg, lo_want), (th, hi_arg, hi_want) in itertools.product(
+            forms('lo'), forms('hi')):
+        n2 += 1
+        tag = 'uniform_partition_fromgrid[min_pt=%s, max_pt=%s]' % (tl, th)
+        try:
+            grid = Rec('RectGrid', coord_vectors=[SArr(list(c2[0])),
+                                                  SArr(list(c2[1]))], ndim=2)
+            leaves, h = _run(model, fn, PART, [grid], {
+                'min_pt': dict(lo_arg) if isinstance(lo_arg, dict)
+                else lo_arg,
+                'max_pt': dict(hi_arg) if isinstance(hi_arg, dict)
+                else hi_arg})
+            bad = None
+            for a_, r in leaves:
+                iv = r.attrs['set']
+                for ax in (0, 1):
+                    cv = c2[ax]
+                    wl = lo_want[ax] if lo_want[ax] is not None else \
+                        cv[0] - (cv[1] - cv[0]) / 2
+                    wh = hi_want[ax] if hi_want[ax] is not None else \
+                        cv[-1] + (cv[-1] - cv[-2]) / 2
+                    gl = _item(iv.attrs['min_pt'], ax)
+                    gh = _item(iv.attrs['max_pt'], ax)
+                    if gl is None or not (to_rat(gl) - wl).is_zero():
+                        bad = 'axis %d: lower limit %r, expected %r' % (
+                            ax, gl, wl)
+                    elif gh is None or not (to_rat(gh) - wh).is_zero():
+                        bad = 'axis %d: upper limit %r, expected %r' % (
+                            ax, gh, wh)
+            if bad:
+                rep.violation('R2', tag, bad, PART, fn.lineno)
+            else:
+                rep.holds('R2', tag, 'given limits kept, missing ones half '
+                          'a stride beyond the outer nodes')
+        except Undecided as e:
+            rep.undecided('R2', tag, str(e), PART, fn.lineno)
+        except PyRaise as e:
+            rep.violation('R2', tag, 'raises %s' % e.name, PART, fn.lineno)
+    rep.floor('R2', 'fromgrid limit forms', n2, 60)
     fn = ctx.func(PART, 'nonuniform_partition')
     for bl, br in itertools.product((True, False), repeat=2):
         tag = 'nonuniform_partition[bdry=(%s,%s)]' % (bl, br)
